@@ -71,6 +71,18 @@ class MediaList(cssutils.util._NewListBase):
         doc="The number of media in the list (DOM readonly).",
     )
 
+    def _seqindex(self, index):
+        "Position in ``_seq`` of the `index`'th medium (comments are not media)."
+        return [i for i, item in enumerate(self._seq) if item.type == 'MediaQuery'][
+            index
+        ]
+
+    def __len__(self):
+        return len([item for item in self._seq if item.type == 'MediaQuery'])
+
+    def __getitem__(self, index):
+        return self._seq[self._seqindex(index)].value
+
     def _getMediaText(self):
         return cssutils.ser.do_stylesheets_medialist(self)
 
@@ -170,7 +182,7 @@ class MediaList(cssutils.util._NewListBase):
     def __delitem__(self, index):
         "Overwriting _NewListBase.__delitem__ to check readonly."
         self._checkReadonly()
-        super().__delitem__(index)
+        del self._seq[self._seqindex(index)]
 
     def __setitem__(self, index, newMedium):
         """Overwriting ListSeq.__setitem__
@@ -181,6 +193,7 @@ class MediaList(cssutils.util._NewListBase):
         newMedium = self.__prepareset(newMedium)
         if newMedium:
             newmt = normalize(newMedium.mediaType)
+            index = self._seqindex(index)
             self._seq[index] = (newMedium, 'MediaQuery', None, None)
             newitem = self._seq[index]
 
